@@ -923,14 +923,20 @@ def roundtrips(job, p):
             out["results"][c["id"]] = {"stage": "structure", "exc": exc_info(e)}
             continue
         try:
-            if dataclasses.is_dataclass(inst):
-                back = conv.unstructure_to_dict(inst)
-            else:
-                # lists / aliases: use what generated code uses for such values (DataclassSerializer.serialize walks the
-                # list and unstructures each model through unstructure_to_dict); converter.unstructure(list) is not the
-                # documented entry point and skips the lazy hook registration
-                utils_mod = importlib.import_module(conv.__name__.rsplit(".", 1)[0] + ".utils")
-                back = utils_mod.DataclassSerializer.serialize(inst)
+            # the bundled converter's documented entry point is unstructure_to_dict(model); containers around models
+            # (array aliases, maps) are walked here and each model goes through that entry point.  DataclassSerializer is
+            # NOT used: it is the request-body serialiser and strips nulls by design, which C03 does not speak about.
+            def _un(x):
+                if dataclasses.is_dataclass(x) and not isinstance(x, type):
+                    return conv.unstructure_to_dict(x)
+                if isinstance(x, list):
+                    return [_un(i) for i in x]
+                if isinstance(x, dict):
+                    return {k: _un(v) for k, v in x.items()}
+                if x is None or type(x) in (str, int, float, bool):
+                    return x
+                return conv.converter.unstructure(x)
+            back = _un(inst)
             json.dumps(back)
         except BaseException as e:  # noqa
             out["results"][c["id"]] = {"stage": "unstructure", "exc": exc_info(e), "pytype": type(inst).__name__}
